@@ -257,7 +257,7 @@ def run(ctx):
     # implementation-shaped companion: the repaired create_regions design is sound for every sequence of span areas in
     # every processing order; the single sweep it replaced is the negative control
     impl_cfg = "SPECIFICATION Spec\nCONSTANTS\n  MaxAreas = %d\n  RingLen = %d\nINVARIANT %s\n"
-    impl = tlc.run("RegionsImpl_MC", impl_cfg % ((3, 6) if ctx.quick else (3, 8)) + ("RepairedDesignSound",), ctx.workdir,
+    impl = tlc.run("RegionsImpl_MC", impl_cfg % (((3, 6) if ctx.quick else (3, 8)) + ("RepairedDesignSound",)), ctx.workdir,
                    tag="_impl", timeout=3000)
     ctx.model(impl, "RegionsImpl_MC: repaired create_regions design vs connected components, all area sequences")
     sweep = tlc.run("RegionsImpl_MC", impl_cfg % (4, 6, "SweepDesignSound"), ctx.workdir, tag="_sweep", timeout=3000)
